@@ -2,6 +2,8 @@ package main
 
 import (
 	"fmt"
+
+	"github.com/DavidGamba/go-getoptions"
 	"regexp"
 	"strings"
 
@@ -261,6 +263,7 @@ func defsC18() []*ph.Def {
 						Cmds:    []*ph.CmdDef{{Name: "fast", Desc: "quick\nbuild", Opts: []ph.OptDef{{Name: "jobs", Kind: ph.Int, DefI: 4, Env: "VERIF_C18_JOBS"}}}}},
 					{Name: "wrap", Desc: "wrapper", Unset: true, Opts: []ph.OptDef{{Name: "wopt", Kind: ph.Bool}}},
 					{Name: "zz", Desc: ""},
+					{Name: "buildx", Desc: "a sibling whose name begins with another command's name"},
 				}}}
 			if withHelp != "" {
 				d.HelpAliases = []string{"?"}
@@ -394,6 +397,33 @@ func c18Judge(def *ph.Def, path string, verbose bool) ([]string, int) {
 			out = append(out, fmt.Sprintf("help: Help() of the root object after a Parse that selected level %q differs from Help() of that level", "/"+path))
 		}
 	}
+	// the sections of the help are independent of each other: asking for two of them in one call gives the two texts
+	{
+		p := ph.Build(def, nil)
+		for _, pair := range [][2]getoptions.HelpSection{{getoptions.HelpOptionList, getoptions.HelpSynopsis}, {getoptions.HelpSynopsis, getoptions.HelpOptionList}, {getoptions.HelpCommandList, getoptions.HelpSynopsis}} {
+			both := p.LevelHelpSections(path, pair[0], pair[1])
+			a, b := p.LevelHelpSections(path, pair[0]), p.LevelHelpSections(path, pair[1])
+			n++
+			if both != a+b {
+				out = append(out, fmt.Sprintf("help: Help(section %d, section %d) at level %q is not Help(section %d) followed by Help(section %d)", pair[0], pair[1], "/"+path, pair[0], pair[1]))
+			}
+		}
+		p.Close()
+	}
+	// `help <name>` given one level up reaches the same text
+	if def.Help != "" && path != "" {
+		words := strings.Split(path, "/")
+		argv := append(append(append([]string{}, words[:len(words)-1]...), def.Help), words[len(words)-1])
+		p := ph.Build(def, nil)
+		o := p.Run(argv, true)
+		p.Close()
+		if o.Panic == "" && !o.HasErr {
+			n++
+			if o.WDispatch != direct {
+				out = append(out, fmt.Sprintf("help: `%s` does not print the help of level %q (Dispatch returned %q)", strings.Join(argv, " "), "/"+path, o.DErr))
+			}
+		}
+	}
 	if haveCmd {
 		n++
 		if viaCmd != direct {
@@ -411,9 +441,9 @@ func init() {
 	}
 	register(&Check{
 		ID:        "C18",
-		QuickSecs: 60, ThoroSecs: 300,
+		QuickSecs: 300, ThoroSecs: 300,
 		Rule: "complete finite product: 12 option kinds x alias count {0,1,2} x required x environment binding x description {none, one line, two lines, text with percent signs} for the option of interest inside a three-option program (576 definitions), plus 24 command trees (every kind as inherited root option, commands with descriptions, sub-command, argument declarations, UnsetOptions wrapper, with and without help command) at every level, and the same definitions again with Help() rendered after every declaration step; " +
-			"each help text is parsed structurally (sections, entries) and checked clause by clause, and the texts reached through the help option (alone and behind options of the level that were given a value), the help command, Help() of the level's object and Help() of the root object after a Parse that selected the level are compared byte for byte; states = definitions x levels, transitions = help texts generated, distinct_nontrivial = distinct help texts",
+			"each help text is parsed structurally (sections, entries) and checked clause by clause, and the texts reached through the help option (alone and behind options of the level that were given a value), the help command, Help() of the level's object, `help <name>` one level up and Help() of the root object after a Parse that selected the level are compared byte for byte, and Help(section, section) equals the two sections rendered alone; states = definitions x levels, transitions = help texts generated, distinct_nontrivial = distinct help texts",
 		Assume: []string{"the exact layout (padding, wrapping) is not part of the property and is not compared"},
 		Run: func(c *RunCtx) {
 			res := c.Res
